@@ -338,7 +338,7 @@ PROPS["C13"] = dict(
                   "simulated gtp5g kernel of the harness (GET_FAR / GET_PDR / GET_QER answers, FAR_RELATED_TO_PDR ascending), loopback UDP; "
                   "Spec/GtpuRef.lean (independent TS 29.281 decoder) for the datagram contents (C14)",
                   "for 'towards the owning SMF' across several SMFs and takeovers: " + _CTL_TB[0] + "; external predicate (Driver/CtlProps.lean): a downlink-data "
-                  "notification goes to the peer that owns the session by the requests seen so far"],
+                  "notification goes to the peer that owns the session by the requests seen so far; a packet handed up for buffering is held (queue length in the dump) whether or not the notification could be delivered — node 4:p7 of the stream cannot be reached"],
     assumptions=["'the FAR's peer' = the outer header creation the data plane holds for the FAR when the switch happens (the code reads the FAR back before applying the update); "
                  "the stricter reading (the parameters carried by the same Update FAR) is not claimed",
                  "the data plane holds one PDR per (session, id) (hypothesis of applyAction_forw / _drop; maintained by establish / addPdr in the model)",
